@@ -29,9 +29,9 @@ def hashFor (hf : ι → Nat → Option (Nat × Nat)) (w : World) (v : Nat) (x :
   | none => none
 
 def step (P : Params) (fx : Fix) (hf : ι → Nat → Option (Nat × Nat)) (w : World) : Op ι → World × Out
-  | .new v nb nh seed => opNew P w v nb nh seed
+  | .new v nb nh seed => opNew P w v (nb % 2 ^ 64) (nh % 2 ^ 16) (seed % 2 ^ 64)   -- the C++ parameter types
   | .blk m len val => opBlk w m len val
-  | .init v m nb nh seed => opInit P w v m nb nh seed
+  | .init v m nb nh seed => opInit P w v m (nb % 2 ^ 64) (nh % 2 ^ 16) (seed % 2 ^ 64)
   | .upd v x => opUpdate P fx w v (hashFor hf w v x)
   | .qau v x => opQau P fx w v (hashFor hf w v x)
   | .bits v => opBitsUsed P w v
